@@ -142,6 +142,7 @@ var (
 	attach   int
 	held     bool
 	reclog   [][]Record
+	nbatches int // record batches handed to readers since the last Reset
 	badClose int
 	// FailOpen, when set, makes the n-th next Open fail with the given errno (fault injection; unused by default).
 )
@@ -159,7 +160,7 @@ func Reset() []Desc {
 		k.closed = true
 	}
 	kqs = map[int]*kqueue{}
-	serial, attach, held, reclog, badClose = 0, 0, false, nil, 0
+	serial, attach, held, reclog, badClose, nbatches = 0, 0, false, nil, 0, 0
 	cond.Broadcast()
 	return left
 }
@@ -429,6 +430,7 @@ func Kevent(kq int, changes, events []Kevent_t, timeout *Timespec) (int, error) 
 		n++
 	}
 	reclog = append(reclog, batch)
+	nbatches++
 	cond.Broadcast()
 	return n, nil
 }
@@ -513,6 +515,37 @@ func WaitIdle(kq int, stop <-chan struct{}) bool {
 		cond.Wait()
 	}
 	return true
+}
+
+// Batches is the number of record batches handed to readers so far.
+func Batches() int {
+	mu.Lock()
+	defer mu.Unlock()
+	return nbatches
+}
+
+// WaitRetrieved blocks until a reader has been handed a batch beyond the first n, or is idle with nothing deliverable
+// (returns false then: there was nothing to retrieve), or the timeout expires.
+func WaitRetrieved(kq, n int, timeout time.Duration) bool {
+	expired := false
+	t := time.AfterFunc(timeout, func() {
+		mu.Lock()
+		expired = true
+		cond.Broadcast()
+		mu.Unlock()
+	})
+	defer t.Stop()
+	mu.Lock()
+	defer mu.Unlock()
+	for {
+		if nbatches > n {
+			return true
+		}
+		if idleLocked(kq) || expired {
+			return false
+		}
+		cond.Wait()
+	}
 }
 
 // WaitGone blocks until none of the descriptors is in the ledger any more, or the timeout expires (returns false).
